@@ -7,7 +7,7 @@
    rows to rows and columns to columns. *)
 From Coq Require Import Reals Lra Lia Arith.
 From Coquelicot Require Import Coquelicot.
-From PS Require Import Base.RBase Base.Dft Base.Dft2 Gen.Ramps Proofs.ConvProofs.
+From PS Require Import Base.RBase Base.Dft Base.Dft2 Gen.Ramps Proofs.ConvProofs Proofs.ConvSymmetry.
 Open Scope C_scope.
 
 Section Chain.
@@ -76,6 +76,23 @@ Proof.
   rewrite Hx, Hy. reflexivity.
 Qed.
 
+(* rectangular odd stamps: (2 cy + 1) rows x (2 cx + 1) columns.  The x ramp is evaluated with the stamp's COLUMN count and the
+   y ramp with its ROW count (Gen/Ramps.v records which dimension the source code uses for each): the stamp is centred on its
+   entry [cy][cx] *)
+Theorem conv_chain_ramps_rect N a p cy cx r c :
+  (0 < N)%nat -> (forall y x, is_real (a y x)) -> (forall y x, is_real (p y x)) -> (r < N)%nat -> (c < N)%nat ->
+  irfft2 N (fun ky kx => dft2 N a ky kx *
+                         (dft2 N p ky kx * (cis (ramp_y_phase (INR (2 * cy + 1)) (INR ky / INR N)) * cis (ramp_x_phase (INR (2 * cx + 1)) (INR kx / INR N))))) r c
+  = Re (csum (fun y => csum (fun x => a y x * p (((r + (N - y)) mod N + cy) mod N)%nat (((c + (N - x)) mod N + cx) mod N)%nat) N) N).
+Proof.
+  intros HN Ha Hp Hr Hc.
+  rewrite <- (conv_chain_phases N HN a p cy cx r c Ha Hp Hr Hc).
+  unfold irfft2. f_equal. f_equal. apply irfft2_T_ext. intros ky kx _.
+  destruct (ramp_is_integer_shift N cx kx HN) as [Hx _].
+  destruct (ramp_is_integer_shift N cy ky HN) as [_ Hy].
+  rewrite Hx, Hy. reflexivity.
+Qed.
+
 (* numpy's fftfreq reports the upper half of the row frequencies as negative, (k - N)/N: same ramp value *)
 Lemma ramp_negative_frequency N c0 k : (0 < N)%nat ->
   cis (ramp_y_phase (INR (2 * c0 + 1)) ((INR k - INR N) / INR N)) = cis (ramp_y_phase (INR (2 * c0 + 1)) (INR k / INR N)) /\
@@ -113,3 +130,85 @@ Proof.
     with (circ_conv2 N (delta2 py px) (advance2 N c0 c0 p) r c).
   rewrite (circ_conv2_delta N HN py px (advance2 N c0 c0 p) r c Hpy Hpx). reflexivity.
 Qed.
+
+(* ---------- the mirror law at image level ---------- *)
+
+(* the right-hand side of the chain theorems: the scene convolved with the stamp centred on its entry [c0][c0] *)
+Definition conv_centred (N c0 : nat) (a p : nat -> nat -> C) (r c : nat) : C :=
+  csum (fun y => csum (fun x => a y x * p (((r + (N - y)) mod N + c0) mod N)%nat (((c + (N - x)) mod N + c0) mod N)%nat) N) N.
+
+Lemma conv_chain_ramps_centred N a p c0 r c :
+  (0 < N)%nat -> (forall y x, is_real (a y x)) -> (forall y x, is_real (p y x)) -> (r < N)%nat -> (c < N)%nat ->
+  irfft2 N (fun ky kx => dft2 N a ky kx *
+                         (dft2 N p ky kx * (cis (ramp_y_phase (INR (2 * c0 + 1)) (INR ky / INR N)) * cis (ramp_x_phase (INR (2 * c0 + 1)) (INR kx / INR N))))) r c
+  = Re (conv_centred N c0 a p r c).
+Proof. exact (conv_chain_ramps N a p c0 r c). Qed.
+
+(* columns reflected about the frame centre: X -> N-1-X; the (2 c0 + 1)-wide stamp reflected about its own centre column
+   (as a zero-padded array: column j -> column 2 c0 - j, circularly) *)
+Definition mirror_x (N : nat) (a : nat -> nat -> C) (y x : nat) : C := a y (N - 1 - x)%nat.
+Definition mirror_stamp (N c0 : nat) (p : nat -> nat -> C) (i j : nat) : C := p i ((2 * c0 + (N - j)) mod N)%nat.
+
+Lemma mirror_idx N c0 c x : (0 < N)%nat -> (2 * c0 + 1 <= N)%nat -> (c < N)%nat -> (x < N)%nat ->
+  ((2 * c0 + (N - ((c + (N - x)) mod N + c0) mod N)) mod N = (((N - 1 - c) + (N - (N - 1 - x))) mod N + c0) mod N)%nat.
+Proof. intros HN Hc0 Hc Hx. mod_cases N HN; lia. Qed.
+
+(* mirroring the scene and the PSF stamp mirrors the convolved image: no residual shift, for every frame size
+   (even or odd) and every odd stamp that fits the frame *)
+Theorem conv_centred_mirror N c0 a p r c : (0 < N)%nat -> (2 * c0 + 1 <= N)%nat -> (c < N)%nat ->
+  conv_centred N c0 (mirror_x N a) (mirror_stamp N c0 p) r c = mirror_x N (conv_centred N c0 a p) r c.
+Proof.
+  intros HN Hc0 Hc. unfold conv_centred, mirror_x, mirror_stamp. apply csum_ext. intros y _.
+  rewrite <- (csum_rev (fun x => a y x * p (((r + (N - y)) mod N + c0) mod N)%nat (((N - 1 - c + (N - x)) mod N + c0) mod N)%nat) N).
+  apply csum_ext. intros x Hx. f_equal. f_equal. apply mirror_idx; assumption.
+Qed.
+
+(* ---------- total light in the spatial form ---------- *)
+
+Section Tot.
+  Variable N : nat.
+  Hypothesis HN : (0 < N)%nat.
+
+  (* summing a circularly re-indexed signal over the whole frame *)
+  Lemma csum_reindex (f : nat -> C) y c0 : (y < N)%nat ->
+    csum (fun r => f (((r + (N - y)) mod N + c0) mod N)%nat) N = csum f N.
+  Proof.
+    intros Hy.
+    rewrite <- (csum_rot N HN f c0).
+    rewrite <- (csum_rot N HN (fun x => f ((x + c0) mod N)%nat) (N - y)).
+    reflexivity.
+  Qed.
+
+  (* total light of the convolved image = total of the scene x sum of the stamp *)
+  Theorem conv_centred_total c0 a p :
+    csum (fun r => csum (fun c => conv_centred N c0 a p r c) N) N
+    = csum (fun y => csum (fun x => a y x) N) N * csum (fun i => csum (fun j => p i j) N) N.
+  Proof.
+    unfold conv_centred.
+    pose (F := fun r c y x : nat => a y x * p (((r + (N - y)) mod N + c0) mod N)%nat (((c + (N - x)) mod N + c0) mod N)%nat).
+    transitivity (csum (fun r => csum (fun c => csum (fun y => csum (fun x => F r c y x) N) N) N) N); [reflexivity|].
+    (* reorder the four sums to y, x, r, c *)
+    rewrite (csum_ext _ (fun r => csum (fun y => csum (fun c => csum (fun x => F r c y x) N) N) N))
+      by (intros r _; apply (csum_swap (fun c y => csum (fun x => F r c y x) N))).
+    rewrite (csum_swap (fun r y => csum (fun c => csum (fun x => F r c y x) N) N)).
+    rewrite (csum_ext _ (fun y => csum (fun x => csum (fun r => csum (fun c => F r c y x) N) N) N)).
+    2:{ intros y _.
+        rewrite (csum_ext _ (fun r => csum (fun x => csum (fun c => F r c y x) N) N))
+          by (intros r _; apply (csum_swap (fun c x => F r c y x))).
+        apply (csum_swap (fun r x => csum (fun c => F r c y x) N)). }
+    set (T := csum (fun i => csum (fun j => p i j) N) N).
+    rewrite (csum_ext _ (fun y => csum (fun x => a y x) N * T)).
+    - rewrite (csum_ext _ (fun y => T * csum (fun x => a y x) N)) by (intros; ring).
+      rewrite csum_scal. ring.
+    - intros y Hy.
+      assert (Hx : forall x, (x < N)%nat -> csum (fun r => csum (fun c => F r c y x) N) N = T * a y x).
+      { intros x Hx. unfold F.
+        rewrite (csum_ext _ (fun r => a y x * csum (fun c => p (((r + (N - y)) mod N + c0) mod N)%nat (((c + (N - x)) mod N + c0) mod N)%nat) N))
+          by (intros r _; apply csum_scal).
+        rewrite csum_scal.
+        rewrite (csum_ext _ (fun r => csum (fun j => p (((r + (N - y)) mod N + c0) mod N)%nat j) N)).
+        2:{ intros r _. apply (csum_reindex (fun j => p (((r + (N - y)) mod N + c0) mod N)%nat j) x c0 Hx). }
+        rewrite (csum_reindex (fun i => csum (fun j => p i j) N) y c0 Hy). fold T. ring. }
+      rewrite (csum_ext _ _ N Hx). rewrite csum_scal. apply Cmult_comm.
+  Qed.
+End Tot.
